@@ -23,6 +23,7 @@ CARRIERS = {
     'tryexc': 'try:\n    a\nexcept E as e:\n    b\nfinally:\n    c\n',
     'def': 'def f(a, b=1):\n    """d"""\n    return a\nx = f(1)\n',
     'uni': 'é = "ñ"; y = é\nif é:\n    z = "𝒳"  # ç\n',
+    'uni2': 'f(д);g(a,\n  b)\nif д: h(c,\n  d)\n',
     'match': 'match v:\n    case 1:\n        a\n    case _:\n        b\n',
     'with': 'with a as b:\n    for i in c:\n        d\n    else:\n        e\n',
     'cls': '@d\nclass C(B):\n    x = 1\n\n    def m(self): pass\n',
@@ -173,11 +174,11 @@ def _mk_rawput(key):
 FNR = ['fst.fst.FST.put_src', 'fst.fst_raw._reparse_raw', 'fst.fst_raw._reparse_raw_stmtlike', 'fst.fst_raw._reparse_raw_base', 'fst.fst_misc.clip_src_loc',
        'fst.fst.FST.find_contains_loc', 'fst.fst_core._put_src', 'fst.fst_core._offset', 'fst.fst_core._set_ast']
 CELLS = []
-_Q = {('ifblock', 0), ('ifblock', 5), ('semi', 3), ('uni', 2)}
+_Q = {('ifblock', 0), ('ifblock', 5), ('semi', 3), ('uni', 2), ('uni2', 2)}
 for _k in CARRIERS:
     _nl = len(CARRIERS[_k].split('\n'))
     for _ti in range(len(TEXTS)):
-        if (_k, _ti) not in _Q and not (TEXTS[_ti] in ('', ' ', '\n', 'if q:', 'pass\n', '# k', 'u = 0\n    ') and _k in ('ifblock', 'elif', 'semi', 'tryexc', 'uni', 'match')
+        if (_k, _ti) not in _Q and not (TEXTS[_ti] in ('', ' ', '\n', 'if q:', 'pass\n', '# k', 'u = 0\n    ') and _k in ('ifblock', 'elif', 'semi', 'tryexc', 'uni', 'uni2', 'match')
                                         or TEXTS[_ti] in ('', '\n') and _k in ('cls', 'with', 'def')):
             continue      # sized out of the thorough tier (all 108 carrier x text pairs were swept concretely at build time: 115,464 rectangles, see DESIGN.md)
         _parts = ['reversed'] + [(a_, b_) for a_ in range(_nl) for b_ in range(a_, _nl)]
